@@ -95,10 +95,14 @@ func (ts *tcpSession) call(c *callSpec) string {
 					done <- "ok " + msgsString([]rscp.Message{*m})
 				}
 			} else {
+				before := msgsString(c.reqs)
 				ms, err := s.cl.SendMultiple(c.reqs)
-				if err != nil {
+				if after := msgsString(c.reqs); after != before {
+					done <- "modified-requests " + trunc(after, 100)
+				} else if err != nil {
 					done <- "err " + clientErrClass(err)
 				} else {
+					retain(ms, "ok "+msgsString(ms))
 					done <- "ok " + msgsString(ms)
 				}
 			}
@@ -147,36 +151,91 @@ func (g *gen) tcpFail(ms []rscp.Message) replySpec {
 
 func init() {
 	streams["tcp"] = func(g *gen, cw *caseWriter, n int, thorough bool) {
-		// real sockets: an authenticated connection idles longer than the heartbeat interval, then the device takes a
-		// request and closes without answering, then it is healthy again. Every request must reach the device at most
-		// once, and the unanswered call must fail.
+		// scripted scenarios over real sockets, run in parallel; each is also compared with the model as a history
 		{
-			type idleRes struct{ op, impl, prop string }
-			results := make([]idleRes, 2)
-			var wg sync.WaitGroup
+			grant := func() replySpec {
+				return frameReply([]rscp.Message{{Tag: rscp.RSCP_AUTHENTICATION, DataType: rscp.UChar8, Value: uint8(10)}})
+			}
+			healthy := func(k int) *callSpec {
+				c := &callSpec{kind: "S", dialOk: true, writeOk: true, reqs: g.nonceRequest(k)[:1], auth: grant()}
+				c.user = frameReply(replyFor(c.reqs, k))
+				return c
+			}
+			type scenario struct {
+				name   string
+				calls  []*callSpec
+				before map[int]time.Duration // pause before call k
+				fails  map[int]bool          // calls that cannot succeed (never answered / dead connection)
+				op     string
+				impl   string
+				prop   string
+			}
+			var scs []*scenario
+			// (1) an authenticated connection idles longer than the heartbeat interval, then the device takes a request and
+			// closes without answering, then it is healthy again: every request reaches the device at most once, and the
+			// unanswered call fails
 			for j := 0; j < 2; j++ {
-				grant := frameReply([]rscp.Message{{Tag: rscp.RSCP_AUTHENTICATION, DataType: rscp.UChar8, Value: uint8(10)}})
-				var calls []*callSpec
+				sc := &scenario{name: "idle-then-unanswered", before: map[int]time.Duration{1: 1100 * time.Millisecond}, fails: map[int]bool{1: true}}
 				for k := 0; k < 3; k++ {
-					c := &callSpec{kind: "S", dialOk: true, writeOk: true, reqs: g.nonceRequest(k)[:1], auth: grant}
-					c.user = frameReply(replyFor(c.reqs, k))
+					c := healthy(k)
 					if k == 1 {
 						c.user = replySpec{behaviour{kind: "closeBefore"}, "X"}
 					}
-					calls = append(calls, c)
+					sc.calls = append(sc.calls, c)
 				}
+				scs = append(scs, sc)
+			}
+			// (2) the device answers and then resets the connection (RST); the next call finds a dead connection and fails
+			// without anything reaching the device; the one after that authenticates on a new connection
+			for j := 0; j < 2; j++ {
+				sc := &scenario{name: "reset-while-idle", before: map[int]time.Duration{1: 80 * time.Millisecond}, fails: map[int]bool{1: true}}
+				for k := 0; k < 4; k++ {
+					c := healthy(k)
+					if k == 0 {
+						c.user.beh.kind = "okThenReset"
+					}
+					if k == 1 {
+						c.writeOk = false // the connection is dead: nothing can be written
+						c.user = replySpec{behaviour{kind: "closeBefore"}, "X"}
+					}
+					sc.calls = append(sc.calls, c)
+				}
+				scs = append(scs, sc)
+			}
+			// (3) after one good exchange, a long outage: 255, 256 and 257 connections in a row die before the authentication
+			// is answered; the first healthy exchange afterwards authenticates and gets its own reply
+			for _, dead := range []int{255, 256, 257} {
+				sc := &scenario{name: fmt.Sprintf("outage-of-%d-connections", dead), fails: map[int]bool{}}
+				sc.calls = append(sc.calls, healthy(0))
+				// the established connection dies at the next request, then every new one dies at its authentication
+				c1 := healthy(1)
+				c1.user = replySpec{behaviour{kind: "closeBefore"}, "X"}
+				sc.calls = append(sc.calls, c1)
+				sc.fails[1] = true
+				for k := 2; k <= dead+1; k++ {
+					c := healthy(k)
+					c.auth = replySpec{behaviour{kind: "closeBefore"}, "X"}
+					sc.calls = append(sc.calls, c)
+					sc.fails[k] = true
+				}
+				sc.calls = append(sc.calls, healthy(dead+2), healthy(dead+3))
+				scs = append(scs, sc)
+			}
+			var wg sync.WaitGroup
+			for j, sc := range scs {
 				wg.Add(1)
-				go func(j int, calls []*callSpec) {
+				go func(j int, sc *scenario) {
 					defer wg.Done()
-					ts, err := newTCPSession("idleuser", "idlepw", "idlekey")
+					user, pw := fmt.Sprintf("scuser%d", j), "scpw"
+					ts, err := newTCPSession(user, pw, "sckey")
 					if err != nil {
 						return
 					}
 					var ops, res []string
 					prop := "pass"
-					for k, c := range calls {
-						if k == 1 {
-							time.Sleep(1100 * time.Millisecond)
+					for k, c := range sc.calls {
+						if d := sc.before[k]; d > 0 {
+							time.Sleep(d)
 						}
 						r := ts.call(c)
 						ops = append(ops, c.op())
@@ -191,20 +250,29 @@ func init() {
 							}
 						}
 						if seen > 1 {
-							prop = "FAIL C08 a request reached the peer more than once (after an idle period): " + trunc(r, 200)
+							addVerdict(&prop, "FAIL C08 a request reached the peer more than once: "+trunc(r, 200))
 						}
-						if k == 1 && strings.HasPrefix(r, "ok") {
-							prop = "FAIL C08 a call whose request was never answered returns success: " + trunc(r, 120)
+						if sc.fails[k] && strings.HasPrefix(r, "ok") {
+							addVerdict(&prop, "FAIL C08 a call whose request was never answered returns success: "+trunc(r, 120))
+						}
+						if !sc.fails[k] {
+							if want := "ok " + msgsString(replyFor(c.reqs, k)); !strings.HasPrefix(r, want+" @") {
+								addVerdict(&prop, fmt.Sprintf("FAIL C08 no recovery: call %d of scenario %s against a healthy peer gives %s", k, sc.name, trunc(r, 120)))
+							}
 						}
 					}
 					ts.close()
-					results[j] = idleRes{fmt.Sprintf("hist %s %s | %s", hexOf([]byte("idleuser")), hexOf([]byte("idlepw")), strings.Join(ops, " | ")), strings.Join(res, " | "), prop}
-				}(j, calls)
+					if v := authFirstViolation(res, ts.authTag, user, pw); v != "" {
+						addVerdict(&prop, "FAIL C09 "+v)
+					}
+					sc.op = fmt.Sprintf("hist %s %s | %s", hexOf([]byte(user)), hexOf([]byte(pw)), strings.Join(ops, " | "))
+					sc.impl, sc.prop = strings.Join(res, " | "), prop
+				}(j, sc)
 			}
 			wg.Wait()
-			for _, r := range results {
-				if r.op != "" {
-					cw.add(r.op, r.impl, "N tcp idle-then-unanswered", r.prop)
+			for _, sc := range scs {
+				if sc.op != "" {
+					cw.add(sc.op, sc.impl, "N tcp "+sc.name, sc.prop)
 				}
 			}
 		}
@@ -217,6 +285,9 @@ func init() {
 				}
 			}
 			user, pw := "user"+strconv.Itoa(g.pick(100)), string(g.bytes(1+g.pick(12)))
+			var ks string
+			user, pw, ks = g.edgeCredentials(i, user, pw, string(key))
+			key = []byte(ks)
 			ts, err := newTCPSession(user, pw, string(key))
 			if err != nil {
 				continue
@@ -279,6 +350,9 @@ func init() {
 				}
 			}
 			ts.close()
+			if v := authFirstViolation(res, ts.authTag, user, pw); v != "" {
+				addVerdict(&prop, "FAIL C09 "+v)
+			}
 			cw.add(fmt.Sprintf("hist %s %s | %s", hexOf([]byte(user)), hexOf([]byte(pw)), strings.Join(ops, " | ")), strings.Join(res, " | "),
 				fmt.Sprintf("N tcp keylen=%d depth=%d", keyLen, depth), prop)
 		}
@@ -292,4 +366,35 @@ func addVerdict(prop *string, v string) {
 	} else if !strings.Contains(*prop, v[:12]) {
 		*prop += " ;; " + v
 	}
+}
+
+// authFirstViolation: the first frame the peer recorded on every connection is the authentication request with exactly the
+// configured credentials (Go-side oracle of C09 over the transcript of a session)
+func authFirstViolation(results []string, authTag uint32, user, pw string) string {
+	seen := map[string]bool{}
+	want := fmt.Sprintf("[ M %d 14 c [ M %d 13 s %s M %d 13 s %s ] ]", authTag, uint32(rscp.RSCP_AUTHENTICATION_USER), hexOf([]byte(user)),
+		uint32(rscp.RSCP_AUTHENTICATION_PASSWORD), hexOf([]byte(pw)))
+	for _, r := range results {
+		at := strings.Index(r, " @ ")
+		if at < 0 {
+			continue
+		}
+		for _, ev := range strings.Split(r[at+3:], " , ") {
+			if !strings.HasPrefix(ev, "sent ") {
+				continue
+			}
+			f := strings.SplitN(ev, " ", 3)
+			if len(f) < 3 || seen[f[1]] {
+				continue
+			}
+			seen[f[1]] = true
+			if strings.HasPrefix(f[2], "undecodable") {
+				continue // C06's business
+			}
+			if f[2] != want {
+				return "the first frame on connection " + f[1] + " is not the authentication request with the configured credentials: " + trunc(f[2], 120)
+			}
+		}
+	}
+	return ""
 }
